@@ -193,6 +193,33 @@ pub fn run(g: &mut Global) {
         &check,
     );
     g.random("random", g.tier.pick(40000, 1000000), &|| strategy(1, 400), &check);
+    // window extremes at every ring phase (hist::extreme_stress): a stale or missed extreme puts %K outside
+    // [0, 100] as soon as the price leaves the remembered range
+    const XP: [usize; 16] = [2, 3, 5, 8, 31, 64, 65, 100, 127, 128, 129, 200, 256, 257, 511, 1025];
+    let seedx = g.seed;
+    g.exhaustive(
+        "extreme_stress",
+        16 * 4 * 2 * 96,
+        &move |i| {
+            let phi = (i % 96) as usize;
+            let r = i / 96;
+            let slow = r % 2 == 1;
+            let r = r / 2;
+            let pattern = (r % 4) as usize;
+            let n = XP[(r / 4) as usize];
+            let phase = if n <= 96 { phi % n } else if phi == 0 { 0 } else if phi == 1 { n - 1 } else { (phi * n) / 96 };
+            let vals = crate::hist::extreme_stress(n, phase, pattern, seedx ^ i.wrapping_mul(0x9E3779B97F4A7C15));
+            let cfg = if slow { Cfg { kind: Kind::SlowStoch, p: vec![n, 3], m: X(0.0) } } else { Cfg { kind: Kind::FastStoch, p: vec![n], m: X(0.0) } };
+            if i % 3 == 0 {
+                // as bars: high/low a little around the value, close = value
+                let bars = vals.iter().map(|&x| RawBar { o: x, h: x * 1.001, l: x * 0.999, c: x, v: 1.0 }).collect();
+                Case { cfg, scalar: false, xs: vec![], bars, stride: 0 }
+            } else {
+                Case { cfg, scalar: true, xs: xs(&vals), bars: vec![], stride: 0 }
+            }
+        },
+        &check,
+    );
     let (lo, hi, cnt) = g.tier.pick((2000usize, 5000usize, 160u32), (20000usize, 50000usize, 1600u32));
     g.random("long", cnt, &move || strategy(lo, hi), &check);
     if g.tier == Tier::Thorough {
